@@ -828,12 +828,12 @@ pub fn run(ctx: &mut Ctx) {
     check_constants(ctx);
     known_range_below_min(ctx);
     let plan: [(&str, u64, u64); 6] = [
-        ("bitpack", 500, 12_000),
-        ("codec", 230, 8_000),
-        ("optidx", 60, 1_500),
-        ("columnar", 260, 9_000),
-        ("merge", 220, 8_000),
-        ("tantivy", 14, 300),
+        ("bitpack", 500, 8_000),
+        ("codec", 230, 4_000),
+        ("optidx", 60, 900),
+        ("columnar", 260, 5_000),
+        ("merge", 220, 4_500),
+        ("tantivy", 14, 200),
     ];
     for (kind, q, t) in plan {
         let n = ctx.budget(q, t);
